@@ -338,14 +338,14 @@ var specSigRe = regexp.MustCompile(`^([A-Za-z_][A-Za-z0-9_]*)\s*\(([^)]*)\)\s*(.
 
 func parseSpecFunc(kw, rest string) (*SpecFunc, error) {
 	sig, body, hasBody := strings.Cut(rest, ":=")
-	m := specSigRe.FindStringSubmatch(strings.TrimSpace(sig))
+	m := splitSpecSig(strings.TrimSpace(sig))
 	if m == nil {
 		return nil, fmt.Errorf("bad %s signature %q", kw, sig)
 	}
 	sf := &SpecFunc{Name: m[1], Ret: strings.TrimSpace(m[3])}
 	if strings.TrimSpace(m[2]) != "" {
 		// params: "a, b T, c U" Go style
-		parts := strings.Split(m[2], ",")
+		parts := splitTopCommas(m[2])
 		var pend []string
 		for _, p := range parts {
 			p = strings.TrimSpace(p)
